@@ -198,7 +198,7 @@ impl<'a> DisasmContext<'a> {
                 let target = if imm >= 0 {
                     offset.wrapping_add(1).wrapping_add(imm as usize)
                 } else {
-                    offset.wrapping_add(1).wrapping_sub((-imm) as usize)
+                    offset.wrapping_add(1).wrapping_sub(imm.unsigned_abs() as usize)
                 };
                 targets.insert(target);
             }
@@ -358,7 +358,7 @@ impl<'a> DisasmContext<'a> {
                 let target = if imm >= 0 {
                     offset.wrapping_add(1).wrapping_add(imm as usize)
                 } else {
-                    offset.wrapping_add(1).wrapping_sub((-imm) as usize)
+                    offset.wrapping_add(1).wrapping_sub(imm.unsigned_abs() as usize)
                 };
                 if let Some(label) = labels.get(&target) {
                     format!("Jump      {}", label)
@@ -371,7 +371,7 @@ impl<'a> DisasmContext<'a> {
                 let target = if imm >= 0 {
                     offset.wrapping_add(1).wrapping_add(imm as usize)
                 } else {
-                    offset.wrapping_add(1).wrapping_sub((-imm) as usize)
+                    offset.wrapping_add(1).wrapping_sub(imm.unsigned_abs() as usize)
                 };
                 if let Some(label) = labels.get(&target) {
                     format!("JumpIf    r{}, {}", a, label)
@@ -384,7 +384,7 @@ impl<'a> DisasmContext<'a> {
                 let target = if imm >= 0 {
                     offset.wrapping_add(1).wrapping_add(imm as usize)
                 } else {
-                    offset.wrapping_add(1).wrapping_sub((-imm) as usize)
+                    offset.wrapping_add(1).wrapping_sub(imm.unsigned_abs() as usize)
                 };
                 if let Some(label) = labels.get(&target) {
                     format!("JumpIfNot r{}, {}", a, label)
